@@ -3,9 +3,12 @@
    (from_props) followed by the constructor; the encoding and decoding of values is done by jsonpickle / pickle /
    SQLAlchemy / bson.  The decoding clauses are proved here; the round-trip equivalence through each path is
    established by the correspondence run (reloaded policies are probed under all four checkers and compared with
-   the model's verdicts for the original policy) - C09 is therefore partial as a theorem. *)
+   the model's verdicts for the original policy) - C09 is therefore partial as a theorem.
+   For rules the stored structure itself is modelled (Model.RuleJson: the JSON object jsonpickle writes for a rule and
+   the object it rebuilds from one, tied to Rule.to_json / Rule.from_json by the rule_codec stream): reading what was
+   written gives back the same rule, and two rules stored as the same structure are the same rule. *)
 From Coq Require Import ZArith NArith List Bool.
-From Vakt Require Import Base.PyMonad Base.PyVal Model.Rules Model.Policy Proofs.PyValP Proofs.PolicyP.
+From Vakt Require Import Base.PyMonad Base.PyVal Model.Rules Model.Policy Model.RuleJson Proofs.PyValP Proofs.PolicyP Proofs.RuleJsonP.
 Import ListNotations.
 
 (* a document without a uid is refused *)
@@ -37,3 +40,45 @@ Example C09_nonvacuous :
   lookup n_context s = Some (ACtx [([107%N], RAny)]) /\
   from_props [(n_effect, AV (VStr s_allow))] = Raise EPolicyCreation.
 Proof. eexists. split; [vm_compute; reflexivity|]. repeat split. Qed.
+
+(* ---- the stored structure of a rule ---- *)
+(* an attribute value (no dictionary key in jsonpickle's reserved py/ namespace) is read back as it was written:
+   tuples stay tuples, lists stay lists, at any nesting depth *)
+Theorem C09_value_round_trip : forall v, plain v = true -> dec_val (enc_val v) = v.
+Proof. exact dec_enc_val. Qed.
+Print Assumptions C09_value_round_trip.
+
+(* every rule the codec covers (all built-in rules but RegexMatch, compositions of any depth and width included) has a
+   stored structure, and decoding that structure - with any fuel not below the rule's nesting depth - gives the rule *)
+Theorem C09_rule_round_trip : forall r, encodable r = true ->
+  exists v, rule_val r = Some v /\ forall fuel, rdepth r <= fuel -> rule_of_val fuel v = Some r.
+Proof. exact rule_round_trip. Qed.
+Print Assumptions C09_rule_round_trip.
+
+(* nothing is lost in the structure: rules stored alike are the same rule *)
+Theorem C09_rule_structure_injective : forall r1 r2 v, encodable r1 = true -> encodable r2 = true ->
+  rule_val r1 = Some v -> rule_val r2 = Some v -> r1 = r2.
+Proof. exact rule_val_injective. Qed.
+Print Assumptions C09_rule_structure_injective.
+
+(* hence the reloaded rule answers every question like the stored one *)
+Corollary C09_reloaded_rule_same_answers : forall r v fuel w i, encodable r = true -> rule_val r = Some v ->
+  rdepth r <= fuel -> exists r', rule_of_val fuel v = Some r' /\ sat r' w i = sat r w i.
+Proof.
+  intros r v fuel w i He Hv Hf. destruct (rule_round_trip r He) as [v' [Hv' Hd]].
+  rewrite Hv in Hv'. injection Hv' as <-. exists r. split; [apply Hd; exact Hf|reflexivity].
+Qed.
+Print Assumptions C09_reloaded_rule_same_answers.
+
+(* non-vacuity: a composition three levels deep with a tuple inside a list and a set of arguments; and the guard is
+   needed - a dictionary that looks like jsonpickle's own tuple tag is not read back as written *)
+Example C09_codec_nonvacuous :
+  let r := RAnd [RNot (ROr [REq (VList [VTup [VInt 1; VStr [97%N]]; VNone]); RIn [VInt 1; VTup [VInt 2]]]);
+                 RStartsWith [97%N] true; RMatch FSubject (Some [105%N; 100%N])] in
+  encodable r = true /\ rdepth r = 4 /\
+  (exists v, rule_val r = Some v /\ rule_of_val 4 v = Some r /\ rule_of_val 3 v = None) /\
+  dec_val (enc_val (VDict [(k_tuple, VList [VInt 1])])) <> VDict [(k_tuple, VList [VInt 1])].
+Proof. cbv zeta. split; [reflexivity|]. split; [reflexivity|]. split.
+  - eexists. split; [vm_compute; reflexivity|]. split; vm_compute; reflexivity.
+  - vm_compute. discriminate.
+Qed.
